@@ -1,0 +1,115 @@
+//! Verification hooks (compiled only with `--cfg jsonlogic_rs_verif`).
+//!
+//! Records, per thread and in program order, the events of an evaluation:
+//! the `apply` call and its outcome, every entry into a parsed node
+//! (operation kind, operator symbol, nesting depth) and every line written
+//! by `log`. Nothing here influences evaluation.
+
+use serde_json::Value;
+use std::cell::{Cell, RefCell};
+
+#[derive(Debug, Clone)]
+pub enum Event {
+    Call { rule: Value, data: Value },
+    Enter { kind: &'static str, symbol: &'static str, depth: usize },
+    Log { value: Value },
+    Ret { ok: bool, value: Option<Value> },
+}
+
+thread_local! {
+    static EVENTS: RefCell<Vec<Event>> = RefCell::new(Vec::new());
+    static DEPTH: Cell<usize> = Cell::new(0);
+    static ENABLED: Cell<bool> = Cell::new(false);
+}
+
+/// Turn recording on or off for the current thread (off by default).
+pub fn set_enabled(on: bool) {
+    ENABLED.with(|e| e.set(on));
+}
+
+fn enabled() -> bool {
+    ENABLED.with(|e| e.get()) || sink_path().is_some()
+}
+
+fn sink_path() -> Option<&'static str> {
+    use std::sync::OnceLock;
+    static SINK: OnceLock<Option<String>> = OnceLock::new();
+    SINK.get_or_init(|| std::env::var("JSONLOGIC_RS_VERIF_TRACE").ok())
+        .as_deref()
+}
+
+fn push(ev: Event) {
+    if !enabled() {
+        return;
+    }
+    EVENTS.with(|evs| evs.borrow_mut().push(ev));
+}
+
+/// Drain the events recorded on the current thread.
+pub fn take_events() -> Vec<Event> {
+    EVENTS.with(|evs| std::mem::take(&mut *evs.borrow_mut()))
+}
+
+pub struct Guard {
+    prev: usize,
+}
+impl Drop for Guard {
+    fn drop(&mut self) {
+        DEPTH.with(|d| d.set(self.prev));
+    }
+}
+
+pub(crate) fn enter(kind: &'static str, symbol: &'static str) -> Guard {
+    let prev = DEPTH.with(|d| {
+        let p = d.get();
+        d.set(p + 1);
+        p
+    });
+    push(Event::Enter { kind, symbol, depth: prev + 1 });
+    Guard { prev }
+}
+
+pub(crate) fn log(value: &Value) {
+    push(Event::Log { value: value.clone() });
+}
+
+pub(crate) fn call(rule: &Value, data: &Value) {
+    DEPTH.with(|d| d.set(0));
+    push(Event::Call { rule: rule.clone(), data: data.clone() });
+}
+
+pub(crate) fn ret(res: &Result<Value, crate::error::Error>) {
+    match res {
+        Ok(v) => push(Event::Ret { ok: true, value: Some(v.clone()) }),
+        Err(_) => push(Event::Ret { ok: false, value: None }),
+    }
+    if let Some(path) = sink_path() {
+        flush_to_sink(path);
+    }
+}
+
+/// One JSON line per event, appended to the sink file; a whole call is
+/// written with a single `write_all` so lines of concurrent calls do not mix.
+fn flush_to_sink(path: &str) {
+    use std::io::Write;
+    let evs = take_events();
+    let tid = format!("{:?}", std::thread::current().id());
+    let mut buf = String::new();
+    for ev in evs {
+        let line = match ev {
+            Event::Call { rule, data } => serde_json::json!({
+                "ev": "call", "tid": tid, "rule": rule.to_string(), "data": data.to_string()}),
+            Event::Enter { kind, symbol, depth } => serde_json::json!({
+                "ev": "enter", "kind": kind, "sym": symbol, "depth": depth}),
+            Event::Log { value } => serde_json::json!({
+                "ev": "log", "value": value.to_string()}),
+            Event::Ret { ok, value } => serde_json::json!({
+                "ev": "ret", "ok": ok, "value": value.map(|v| v.to_string())}),
+        };
+        buf.push_str(&line.to_string());
+        buf.push('\n');
+    }
+    if let Ok(mut f) = std::fs::OpenOptions::new().create(true).append(true).open(path) {
+        let _ = f.write_all(buf.as_bytes());
+    }
+}
